@@ -49,6 +49,7 @@ var (
 )
 
 func c17TimerExec(c *core.Ctx, in c17Timer) {
+	c.Distinct(core.Hash64("timer", in.Kind, in.Seconds), in.Seconds > 0)
 	var o byte
 	pi := core.Try(func() {
 		if in.Kind == 2 {
@@ -87,6 +88,7 @@ func c17TimerExec(c *core.Ctx, in c17Timer) {
 var c17UnitCodes = map[string]byte{"Kbps": 0x01, "Mbps": 0x06, "Gbps": 0x0B, "Tbps": 0x10, "Pbps": 0x15}
 
 func c17AmbrExec(c *core.Ctx, in c17Ambr) {
+	c.Distinct(core.Hash64("ambr", in.Value, in.Unit, in.Up), in.Value > 0)
 	other := "77 Mbps"
 	this := fmt.Sprintf("%d %s", in.Value, in.Unit)
 	a := &models.Ambr{Uplink: other, Downlink: this}
@@ -128,6 +130,7 @@ func zoneText(q int) string {
 }
 
 func c17ZoneExec(c *core.Ctx, in c17Zone) {
+	c.Distinct(core.Hash64("zone", in.Quarters, in.Dst), in.Quarters != 0 || in.Dst != 0)
 	base := zoneText(in.Quarters)
 	txt := base
 	if in.Dst > 0 {
@@ -165,6 +168,7 @@ func c17ZoneExec(c *core.Ctx, in c17Zone) {
 }
 
 func c17StampExec(c *core.Ctx, in c17Stamp) {
+	c.Distinct(core.Hash64("stamp", uint64(in.Unix), in.OffsetSec, in.Location), true)
 	loc := time.FixedZone("x", in.OffsetSec)
 	if in.Location != "" {
 		l, err := c17Location(in.Location)
@@ -246,6 +250,7 @@ func c17StampSeqExec(c *core.Ctx, in c17StampSeq) {
 }
 
 func c17NameExec(c *core.Ctx, in c17Name) {
+	c.Distinct(core.Hash64("name", in.Septets, in.Short), len(in.Septets) >= 4)
 	sept := unhex(in.Septets)
 	var ln, spare, ext, coding, addci uint8
 	var text []byte
@@ -482,6 +487,6 @@ func init() {
 			"zone/DST combinations whose effective offset crosses zero or leaves ±19:45 are outside the stated domain (no such zone exists; counted, not asserted)",
 			"time stamps are encoded and decoded in the time's own fixed zone (the library's convention); Decode(Encode(t)) must be the same instant with the same offset",
 		},
-		Finish: func(m *core.Merged, cov map[string]any) { cov["distinct_nontrivial"] = m.Counters["evaluations"] },
+		Finish: finishDistinct("distinct by (kind, all inputs); non-trivial = durations and bit rates above zero, zones other than +00:00 without DST, every time stamp, names of at least two characters"),
 	})
 }
